@@ -14,6 +14,12 @@ it, after that `if`, in/after a loop whose header holds it, element of an
 enclosing comprehension) x 4 probe names.
 Plus family W (both tiers, complete, run in the E shards): `k = 0; [R = u]; while k < n and R > 0:
 k = k + 1; <body>` with R in {a, b, x, i} bound only in the body (8 forms), only before, both or nowhere.
+Plus family I (both tiers, complete, 378 programs): an indexed assignment `R[0] = u` as the USE site of
+R in {a, x}: 15 binding shapes of R (nowhere / before / one-armed if / one arm, both arms, one arm with a
+returning sibling of if-else / for, for-enumerate, while body / loop target / comprehension variable /
+with body / tuple pattern) x 6 use positions (straight after, or inside a one-armed if, an if-else arm, a
+for, while or with body) x 2 tails (`return u`, which reads no local, and `return R[0]`); plus use-before-
+bind, bind-then-use and conditional-bind-then-use inside one for / for-enumerate / while body.
 
 Oracle (a), dynamic: an accepted program never fails with NameError /
 UnboundLocalError / a KeyError whose key is an identifier (missing definition,
@@ -141,6 +147,11 @@ class ScopeModel:
             return self.expr(st[2], D, live, path) | frozenset(names), live
         if op == 'rete':
             return self.expr(st[1], D, live, path), False
+        if op == 'iset':
+            # `R[i] = e` updates the list R already names: a read of R (and of i, e), binds nothing
+            self.read((st[1],), D, live, path)
+            D = self.expr(st[2], D, live, path)
+            return self.expr(st[3], D, live, path), live
         if op.startswith('ret_'):
             self.read((op[4:],), D, live, path)
             return D, False
@@ -247,7 +258,8 @@ class Check(BaseCheck):
             'called on all 18 steering inputs; plus the complete product family E of comprehensions used as '
             'sub-expressions with a probe read outside them. nontrivial = DISTINCT programs that contain a compound construct and a '
             'reachable read of a non-parameter name after that construct\'s header (so that a join / zero-trip rule '
-            'decided the verdict)')
+            'decided the verdict); plus the complete family I in which an indexed assignment `R[0] = u` (a read of '
+            'R that binds nothing) is the use site of R under every binding shape of the alphabet')
     assumptions = [
         'the scope model reads docs/USAGE.md "Control Flow" + semantics.rst: one-armed if / for / while bodies, loop '
         'targets and comprehension variables do not bind afterwards; both arms of if/else do; with-as does not scope',
@@ -272,6 +284,7 @@ class Check(BaseCheck):
              'programs_per_size': {str(n): len(self.space.programs(n)) for n in range(1, self.maxsize + 1)},
              'family_E_comprehension_subexpressions': len(self.space.programs('E')) - len(G.W_PROGRAMS),
              'family_W_while_condition_reads': len(G.W_PROGRAMS),
+             'family_I_indexed_assignment_use_sites': len(self.space.programs('I')),
              'inputs_per_accepted_program': len(INPUTS)}
         if self.tier == 'quick':
             b['extra_slice'] = (f'size-5 programs with index = {self.seed % self.SLICE} mod {self.SLICE} '
@@ -279,7 +292,7 @@ class Check(BaseCheck):
         return b
 
     def shards(self):
-        sh = [(n, 0, 1) for n in (1, 2, 3)] + [('E', j, 4) for j in range(4)]
+        sh = [(n, 0, 1) for n in (1, 2, 3)] + [('E', j, 4) for j in range(4)] + [('I', 0, 1)]
         sh += [(4, j, self.NSHARDS4) for j in range(self.NSHARDS4)]
         if self.tier == 'quick':
             r = self.seed % self.SLICE
@@ -459,6 +472,10 @@ class Check(BaseCheck):
         assert ScopeModel().run(esc).bad and ScopeModel().run(arm).bad and not ScopeModel().run(fine).bad
         assert blame(esc) == 'comp-var' and blame(arm) == 'comp-var'
         assert not ScopeModel().run(shadow).bad and ScopeModel(py_comp=True).run(shadow).bad
+        bindl, iset = ('let', 'a', G.OP('[{}, {}]', G.N('u'), G.N('v'))), ('iset', 'a', G.OP('0'), G.N('u'))
+        ibad = (('if1', (bindl,)), iset, ('ret_u',))
+        assert ScopeModel().run(ibad).bad and blame(ibad) == 'if1-body' and ScopeModel().run((iset, ('ret_u',))).bad
+        assert not ScopeModel().run((bindl, iset, ('ret_u',))).bad and ibad in G.I_PROGRAMS
         wbad, wok = G.W_PROGRAMS[0], G.W_PROGRAMS[16]     # R bound only in the body / also before the loop
         assert ScopeModel().run(wbad).bad and blame(wbad) == 'while-cond-sees-body' and not ScopeModel().run(wok).bad
 
